@@ -1,21 +1,23 @@
+\* dynamics: edits, scrolling, selection, list changes, resizes on a few configurations
 CONSTANTS
   Widths = {12, 22}
-  Heights = {3, 5, 8}
+  Heights = {4, 6}
   Layouts = {"default", "reverse", "reverse-list"}
-  Infos = {"default", "inline", "hidden", "right", "inline-right"}
-  Seps = {TRUE, FALSE}
+  Infos = {"default", "inline"}
+  Seps = {TRUE}
   Headers <- MCHeadersQ
   Hlines <- MCHlinesQ
-  HeaderFirsts = {TRUE, FALSE}
+  HeaderFirsts = {FALSE}
   Inputless = {FALSE}
   Pointers <- MCPointers
   Markers <- MCMarkers
   Ellipses <- MCEllipses
   Lists <- MCListsQ
-  Multis = {0, 2}
+  Multis = {2}
   Queries <- MCQueriesQ
   MaxCount = 12
+  Acts = {"edit", "move", "toggle", "list", "resize"}
 INIT Init
 NEXT Next
-INVARIANTS InvPlace InvRowCount InvWidth InvClaims InvOnePointer InvPointerOnCurrent InvMarkers InvHeaderOutsideList InvTakeW InvRTrim
+INVARIANTS InvRowCount InvWidth InvClaims InvOnePointer InvPointerOnCurrent InvMarkers InvHeaderOutsideList InvRTrim
 CHECK_DEADLOCK FALSE
